@@ -13,6 +13,8 @@ Section P.
 Variable p : prog.
 Hypothesis wfp : wf_prog p.
 Notation memob := (memob p).
+Notation dead := (dead p).
+Notation GoneSame := (GoneSame p).
 Notation effb := (effb p).
 Notation sigb := (sigb p).
 Notation WF := (WF p).
@@ -68,12 +70,13 @@ Lemma memo_update_spec i cm e U R :
     Inv stk i s -> ctx_ok stk c -> ~ In i stk -> (forall k, In k stk -> i < k) ->
     (forall k, In k stk -> In i (srcs (getn s k)) ->
                In i (tracked_of (rlog (getn s k))) \/ obs_of c = Some k) ->
+    dead s i = false ->
     memo_update p U R c i cm e s = (s', ch) ->
     Inv stk i s' /\ PullRel (S i) stk None s s' /\ subs (getn s' i) = subs (getn s i) /\
     st (getn s' i) = Clean /\ cache (getn s' i) <> None /\
     (ch = true -> forall k, In i (tracked_of (rlog (getn s' k))) -> since (getn s' k) <> []).
 Proof.
-  intros Hd HU HR c s stk s' ch I C Hni Hgt Hpend Hmu.
+  intros Hd HU HR c s stk s' ch I C Hni Hgt Hpend Hgi Hmu.
   assert (Hm : memob i = true) by (unfold GraphInvariant.memob; rewrite Hd; auto).
   assert (Hil : i < length p).
   { apply (decl_in_range p). intros tk iv; rewrite Hd; discriminate. }
@@ -94,7 +97,8 @@ Proof.
   assert (Hdec : exists sa need, dec = (sa, need) /\
             Inv stk i sa /\ PullRel i stk None s sa /\
             (need = false -> st (getn sa i) <> Dirty /\ cache (getn s i) <> None /\
-               forall x v, In (x, v, true) (rlog (getn sa i)) -> memob x = true -> st (getn sa x) = Clean) /\
+               forall x v, In (x, v, true) (rlog (getn sa i)) -> memob x = true -> dead sa x = false ->
+                           st (getn sa x) = Clean) /\
             (need = true -> st (getn s i) <> Clean /\
                (cache (getn sa i) = None \/ since (getn sa i) <> []))).
   { unfold dec. destruct (st (getn s i)) eqn:Est.
@@ -102,7 +106,7 @@ Proof.
       { intros E. destruct (Hunc E). congruence. }
       exists s, false. split; auto. split; auto. split; [apply PullRel_refl|]. split; [|discriminate].
       intros _. split; [congruence|]. split; auto.
-      intros x v Hx Hmx. eapply Hrcl; eauto.
+      intros x v Hx Hmx Hgx. eapply Hrcl; eauto.
     - assert (Hcn : cache (getn s i) <> None).
       { intros E. destruct (Hunc E). congruence. }
       destruct (any_src U c i (srcs (getn s i)) s) as [sa need] eqn:Ea.
@@ -112,7 +116,7 @@ Proof.
       destruct (pr_above _ _ _ _ _ _ Pa i (le_n i)) as (Hr & _); [discriminate|].
       exists sa, need. split; auto. split; auto. split; auto. split.
       + intros Hf. destruct (Hn Hf) as [Hnd Hall]. split; auto. split; auto.
-        intros x v Hx Hmx. rewrite Hr in Hx. apply Hall; auto. rewrite HL1. apply in_tracked_of. eauto.
+        intros x v Hx Hmx Hgx. rewrite Hr in Hx. apply Hall; auto. rewrite HL1. apply in_tracked_of. eauto.
       + intros Ht. split; [congruence|]. right.
         destruct (pr_above2 _ _ _ _ _ _ Pa i (le_n i)) as (Hca & _).
         destruct (Hy Ht) as [Hds|(x & Hx1 & Hx2)].
@@ -247,19 +251,23 @@ Lemma node_update_spec i U R : USpec i U -> RSpec i R ->
     node_update p U R c i s = (s', ch) ->
     Inv stk t s' /\ PullRel (S i) stk None s s' /\
     subs (getn s' i) = subs (getn s i) /\
-    (memob i = true -> st (getn s' i) = Clean /\ cache (getn s' i) <> None) /\
+    (memob i = true -> dead s i = false -> st (getn s' i) = Clean /\ cache (getn s' i) <> None) /\
     (ch = true -> forall k, In i (tracked_of (rlog (getn s' k))) -> since (getn s' k) <> []).
 Proof.
   intros HU HR c s stk t s' ch Hit I C Hn. unfold node_update in Hn.
   destruct (decl_of p i) eqn:Hd;
     try (inversion Hn; subst; split; auto; split; [apply PullRel_refl|]; split; auto;
          split; [unfold GraphInvariant.memob; rewrite Hd; discriminate|discriminate]).
+  assert (Hgi : dead s i = sgone (getn s i)) by (apply dead_src; unfold GraphInvariant.effb; rewrite Hd; reflexivity).
+  destruct (sgone (getn s i)) eqn:Hgi0.
+  { inversion Hn; subst. split; auto. split; [apply PullRel_refl|]. split; auto.
+    split; [intros _ E; congruence|discriminate]. }
   destruct (frames_above stk t i s I Hit) as (Hni & Hgt).
   assert (Hpend : forall k, In k stk -> In i (srcs (getn s k)) ->
                   In i (tracked_of (rlog (getn s k))) \/ obs_of c = Some k).
   { intros k Hk Hin. destruct (inv_frame _ _ _ _ I k Hk) as (_&_&F3&_).
     destruct (F3 i Hin); auto. lia. }
-  destruct (memo_update_spec i c0 e U R Hd HU HR c s stk s' ch (Inv_lower p stk t i s ltac:(lia) I) C Hni Hgt Hpend Hn)
+  destruct (memo_update_spec i c0 e U R Hd HU HR c s stk s' ch (Inv_lower p stk t i s ltac:(lia) I) C Hni Hgt Hpend Hgi Hn)
     as (I' & P' & Hsu & Hst & Hca & Hcs).
   split; [eapply Inv_restore; eauto|]. split; auto.
 Qed.
@@ -269,8 +277,8 @@ Lemma read_memo U R i cm e : decl_of p i = DMemo cm e -> USpec i U -> RSpec i R 
   forall m c s stk t s' v, i < t -> CtxDep p c i -> Inv stk t s -> ctx_ok stk c -> TopOK c s ->
   node_read p U R m c i s = (s', v) ->
   Inv stk t s' /\ TopOK c s' /\ PullRel (S i) stk (fst c) s s' /\
-  (memob i = true -> st (getn s' i) = Clean /\ cache (getn s' i) = Some v) /\
-  (sigb i = true -> v = sval (getn s' i)) /\
+  (memob i = true -> dead s i = false -> st (getn s' i) = Clean /\ cache (getn s' i) = Some v) /\
+  (sigb i = true -> dead s i = false -> v = sval (getn s' i)) /\
   Growth c s s' (fun D => forall rest, rlvl p (S i) m (snd c) i (D ++ rest) = Some (v, rest)).
 Proof.
   intros Hd HU HR m c s stk t s' v Hit Hcd I C T Hr. unfold node_read in Hr. rewrite Hd in Hr.
@@ -283,12 +291,17 @@ Proof.
             rlvl p (S i) m (snd c) i ((i, x, t0) :: rest) = Some (x, rest)).
   { intros x t0 rest Ht. cbn [rlvl]. rewrite Nat.eqb_refl, Hd. rewrite ?Nat.eqb_refl. cbn [andb]. rewrite Ht. reflexivity. }
   assert (Hns : sigb i = false) by (unfold GraphInvariant.sigb; rewrite Hd; auto).
+  assert (Eg : dead s i = sgone (getn s i)) by (apply dead_src; unfold GraphInvariant.effb; rewrite Hd; reflexivity).
+  destruct (sgone (getn s i)) eqn:Eg0.
+  { inversion Hr; subst s' v. clear Hr.
+    destruct (read_gone p i m c s stk t Hlv Eg Hit Hcd I C T) as (I2 & T2 & P2 & G2).
+    split; auto. split; auto. split; auto. split; [intros _ E; congruence|]. split; [intros _ E; congruence|exact G2]. }
   destruct (frames_above stk t i s I Hit) as (Hni & Hgt).
   destruct (m && snd c) eqn:Et.
   - (* tracked *)
     apply andb_prop in Et as [-> Hs].
     destruct (obs_of_tracked c stk C Hs) as (o & Hw & Ho).
-    destruct (Inv_track p stk t c o i s I C Ho T Hit (Hcd o Hw)) as (I1 & Hp & P1 & Hsro & Hrl & _).
+    destruct (Inv_track p stk t c o i s I C Ho T Hit (Hcd o Hw) Eg) as (I1 & Hp & P1 & Hsro & Hrl & _).
     set (s1 := track c i s) in *.
     destruct (memo_update p U R c i cm e s1) as [s2 ch] eqn:Emu.
     inversion Hr; subst s' v. clear Hr.
@@ -297,7 +310,8 @@ Proof.
     { intros k Hk Hin0. destruct (Nat.eq_dec k o) as [->|Hko]; auto.
       rewrite Hsro in Hin0 by auto. rewrite Hrl.
       destruct (inv_frame _ _ _ _ I k Hk) as (_&_&F3&_). destruct (F3 i Hin0); auto. lia. }
-    destruct (memo_update_spec i cm e U R Hd HU HR c s1 stk s2 ch I1 C Hni Hgt Hpend Emu)
+    assert (Eg1 : dead s1 i = false) by (rewrite (PullRel_GoneSame p _ _ _ _ _ P1 i); exact Eg).
+    destruct (memo_update_spec i cm e U R Hd HU HR c s1 stk s2 ch I1 C Hni Hgt Hpend Eg1 Emu)
       as (I2 & P2 & _ & Hst2 & Hca2 & _).
     destruct (ctx_ok_obs stk c o C Ho) as [_ Hin].
     assert (Hio : i < o) by (apply Hgt; auto).
@@ -309,11 +323,11 @@ Proof.
       destruct (inv_frame _ _ _ _ I k Hk) as (_&_&F3&_). apply F3; auto.
     + intros k Hk. apply (frame_ge p stk t s k I Hk).
     + rewrite Hso2, Hro2. exact Hp.
-    + unfold GraphInvariant.cur. rewrite Hd. reflexivity.
+    + intros _. unfold GraphInvariant.cur. rewrite Hd. reflexivity.
     + split; auto. split; auto. split.
       { rewrite Hw. eapply PullRel_trans; [exact P1|]. eapply PullRel_trans; [apply PullRel_addex; exact P2|exact P3]. }
       split.
-      { intros _. destruct (log_read_other_fields c i (cache_val (getn s2 i)) true true s2 i) as (_&_&->&->&_).
+      { intros _ _. destruct (log_read_other_fields c i (cache_val (getn s2 i)) true true s2 i) as (_&_&->&->&_).
         split; auto. unfold cache_val. destruct (cache (getn s2 i)); [reflexivity|congruence]. }
       split; [intros; congruence|].
       intros w Hw0. destruct (Hwr w Hw0) as (Hwl & Hiw).
@@ -331,7 +345,7 @@ Proof.
                     In i (tracked_of (rlog (getn s k))) \/ obs_of c = Some k).
     { intros k Hk Hin0. destruct (inv_frame _ _ _ _ I k Hk) as (_&_&F3&_).
       destruct (F3 i Hin0); auto. lia. }
-    destruct (memo_update_spec i cm e U R Hd HU HR c s stk s2 ch (Inv_lower p stk t i s ltac:(lia) I) C Hni Hgt Hpend Emu)
+    destruct (memo_update_spec i cm e U R Hd HU HR c s stk s2 ch (Inv_lower p stk t i s ltac:(lia) I) C Hni Hgt Hpend Eg Emu)
       as (I2 & P2 & _ & Hst2 & Hca2 & _).
     assert (I2' : Inv stk t s2) by (eapply Inv_restore; eauto).
     assert (T2 : TopOK c s2).
@@ -344,7 +358,7 @@ Proof.
     split; auto. split; auto. split.
     { eapply PullRel_trans; [apply PullRel_addex; exact P2|exact P3]. }
     split.
-    { intros _. destruct (log_read_other_fields c i (cache_val (getn s2 i)) false true s2 i) as (_&_&->&->&_).
+    { intros _ _. destruct (log_read_other_fields c i (cache_val (getn s2 i)) false true s2 i) as (_&_&->&->&_).
       split; auto. unfold cache_val. destruct (cache (getn s2 i)); [reflexivity|congruence]. }
     split; [intros; congruence|].
     intros w Hw0. destruct (Hwr w Hw0) as (Hwl & Hiw).
